@@ -14,6 +14,10 @@ pub struct PRt {
     /// encode_length_delimited / decode_length_delimited round trip reproduces `reencoded`
     pub framed_ok: bool,
     pub debug: String,
+    /// decoding the same bytes from a segmented buffer disagreed with the contiguous decode
+    pub chain_mismatch: Option<String>,
+    /// (split point, re-encoding of what the segmented decode produced) where PartialEq said "different"
+    pub chain_suspects: Vec<(usize, Vec<u8>)>,
 }
 
 fn roundtrip<M: Message + Default + PartialEq + Debug>(bytes: &[u8]) -> PRt {
@@ -31,6 +35,26 @@ fn roundtrip<M: Message + Default + PartialEq + Debug>(bytes: &[u8]) -> PRt {
     match M::decode(Bytes::copy_from_slice(&out.reencoded)) {
         Ok(m2) => out.second_equal = Some(m2 == m),
         Err(e) => out.second_err = Some(format!("{:?}", e)),
+    }
+    // the same bytes as a segmented buffer (Buf::chain): every decoder takes `impl Buf`, and a
+    // varint, a length prefix or a short string may straddle a chunk boundary
+    for k in split_points(bytes.len()) {
+        use bytes::Buf;
+        let chained = (&bytes[..k]).chain(&bytes[k..]);
+        match M::decode(chained) {
+            Ok(mc) if mc == m => {}
+            // not equal under PartialEq (NaN, too): the caller compares the re-encodings
+            // through the reference decoder
+            Ok(mc) => {
+                if out.chain_suspects.len() < 2 {
+                    out.chain_suspects.push((k, mc.encode_to_vec()));
+                }
+            }
+            Err(e) => {
+                out.chain_mismatch = Some(format!("split at {} of {}: decode error {:?}", k, bytes.len(), e));
+                break;
+            }
+        }
     }
     let framed = m.encode_length_delimited_to_vec();
     out.framed_ok = match M::decode_length_delimited(Bytes::from(framed)) {
@@ -60,7 +84,27 @@ fn merge2<M: Message + Default + PartialEq + Debug>(a: &[u8], b: &[u8]) -> PMerg
 }
 
 fn decode_only<M: Message + Default>(bytes: &[u8]) -> bool {
+    use bytes::Buf;
+    // also as a segmented buffer; only the contiguous outcome is reported
+    for k in split_points(bytes.len()) {
+        let _ = M::decode((&bytes[..k]).chain(&bytes[k..]));
+    }
     M::decode(Bytes::copy_from_slice(bytes)).is_ok()
+}
+
+/// A handful of split points spread over the input (every one for short inputs).
+fn split_points(len: usize) -> Vec<usize> {
+    if len < 2 {
+        return vec![];
+    }
+    if len <= 24 {
+        return (1..len).collect();
+    }
+    let mut v = vec![1, 2, 3, len / 4, len / 3, len / 2, len / 2 + 1, 2 * len / 3, len - 3, len - 2, len - 1];
+    v.sort();
+    v.dedup();
+    v.retain(|k| *k > 0 && *k < len);
+    v
 }
 
 fn decode_delimited_only<M: Message + Default>(bytes: &[u8]) -> bool {
